@@ -1,6 +1,7 @@
 package main
 
 import (
+	"strconv"
 	"bufio"
 	"fmt"
 	"os"
@@ -256,10 +257,21 @@ func (cs *ContractSet) parseFile(path, pkg string) error {
 			// initarg[P] name = `text`   (raw string: everything between the first and last back-quote)
 			eq := strings.Index(rest, "=")
 			a, z := strings.Index(rest, "`"), strings.LastIndex(rest, "`")
-			if eq < 0 || a < eq || z <= a {
-				return fmt.Errorf("%s:%d: initarg needs name = `text`", path, line)
+			text := ""
+			if eq >= 0 && a < 0 {
+				// name = "text" with Go escapes (for constants holding characters better written as \uXXXX)
+				q, err := strconv.Unquote(strings.TrimSpace(rest[eq+1:]))
+				if err != nil {
+					return fmt.Errorf("%s:%d: initarg needs name = `text` or name = \"text\"", path, line)
+				}
+				text = q
+			} else {
+				if eq < 0 || a < eq || z <= a {
+					return fmt.Errorf("%s:%d: initarg needs name = `text`", path, line)
+				}
+				text = rest[a+1 : z]
 			}
-			cs.InitArgs = append(cs.InitArgs, &InitArg{Global: strings.TrimSpace(rest[:eq]), Text: rest[a+1 : z], Props: props, Pkg: pkg, File: path, Line: line})
+			cs.InitArgs = append(cs.InitArgs, &InitArg{Global: strings.TrimSpace(rest[:eq]), Text: text, Props: props, Pkg: pkg, File: path, Line: line})
 			cur = nil
 			lastText = nil
 		case "builtin":
